@@ -19,6 +19,7 @@ import Driver.Ops.C18
 import Driver.Ops.C19
 import Driver.Ops.C20
 import Driver.Ops.Std
+import Driver.Ops.Sites
 namespace ZVD
 
 def allOps : OpTable :=
@@ -42,6 +43,7 @@ def allOps : OpTable :=
   ++ opsC19
   ++ opsC20
   ++ opsStd
+  ++ opsSites
 
 def dispatch (op : String) (a : Args) : Except String String :=
   match allOps.find? (·.1 == op) with
